@@ -280,10 +280,15 @@ def find_from_filter(context, file_filter, *, file_type=None, dir_type=None,
 
     if cache:
         try:
-            return [types[_path_type(i)](i, dist=dist) for i in
-                    context.build['find_cache'][file_filter].found]
+            cached = context.build['find_cache'][file_filter]
         except KeyError:
             pass
+        else:
+            # Extra files aren't returned, but they still need to be created
+            # so that they get added to the source distribution.
+            for i in cached.extra:
+                extra_types[_path_type(i)](i, dist=dist)
+            return [types[_path_type(i)](i, dist=dist) for i in cached.found]
 
     results, found, extra, seen_dirs = [], [], [], []
     for path, matched in _find_files(context.env, file_filter, seen_dirs):
